@@ -4,7 +4,7 @@
    Extract Constant / Extract Inductive directives of our own. *)
 From Coq Require Extraction ExtrOcamlBasic.
 From Grenad.gen Require Import Consts.
-From Grenad.model Require Import Base Varint Block Trailer Writer Reader Spec Iter Format Merger Sorter IoModel.
+From Grenad.model Require Import Base Varint Block Trailer Writer Reader Spec Iter Format Merger Sorter IoModel StoreCheck.
 Extraction Language OCaml.
 Extraction "model.ml"
   Base.len Base.lex_compare Base.bytes_ltb Base.bytes_leb Base.bytes_eqb Base.starts_with
@@ -21,4 +21,5 @@ Extraction "model.ml"
   Merger.merge_run Merger.mf_concat Merger.mf_sortcat Merger.mf_fail_at Merger.merge_next Merger.init_heap
   Sorter.s_new Sorter.s_insert Sorter.s_finish Sorter.sorter_run Sorter.sorter_spec Sorter.clamp_threshold
   Sorter.clamp_chunks Sorter.default_capacity Sorter.round_up Sorter.n_new Sorter.n_insert Sorter.n_finish
-  IoModel.w_run_sched IoModel.w_run_fault IoModel.faulty_load IoModel.sk_bytes IoModel.load_block_sched.
+  IoModel.w_run_sched IoModel.w_run_fault IoModel.faulty_load IoModel.sk_bytes IoModel.load_block_sched
+  StoreCheck.store_wf.
